@@ -129,7 +129,7 @@ std::vector<T> check_basic(vf::Ctx& c, std::size_t k, Result const& res, Rec<T> 
     vf::ExactSum<T> exact;
     std::vector<long double> squares;
     std::vector<T> v(logged, T(0));
-    long double sumsq_abs = 0;
+    long double sumsq_abs = 0, sq_slack = 0;
     for (std::size_t i = 0; i != logged; ++i)
     {
         Rec<T> const& r = begin[i];
@@ -142,13 +142,15 @@ std::vector<T> check_basic(vf::Ctx& c, std::size_t k, Result const& res, Rec<T> 
         exact.add(val);
         squares.push_back(static_cast<long double>(val) * val);
         sumsq_abs += static_cast<long double>(val) * val;
+        // a square in the denormal range of T is computed with a few bits only: absolute, not relative, accuracy
+        if (static_cast<long double>(val) * val < static_cast<long double>(std::numeric_limits<T>::min()) * std::ldexp(1.0L, std::numeric_limits<T>::digits)) { sq_slack += std::numeric_limits<T>::min(); }
     }
     VF_CHECK(c, res.non_zero_calls() == nz, "C02:non-zero-calls", "iteration " << k << ": non_zero_calls() = " << res.non_zero_calls() << ", log has " << nz);
     VF_CHECK(c, res.finite_calls() == fin, "C02:finite-calls", "iteration " << k << ": finite_calls() = " << res.finite_calls() << ", log has " << fin);
     long double const eps = vf::eps<T>();
     ic.close(res.sum(), exact.value(), (4 * eps + 4 * N * eps * eps) * exact.abs_sum() + 2 * eps * std::fabs(exact.value()), "C02:sum", "sum()");
     long double const sq = kahan_sum_ld<T>(squares);
-    ic.close(res.sum_of_squares(), sq, (N + 4) * eps * sumsq_abs, "C02:sum-of-squares", "sum_of_squares()");
+    ic.close(res.sum_of_squares(), sq, (N + 4) * eps * sumsq_abs + sq_slack, "C02:sum-of-squares", "sum_of_squares()");
     if (N >= 1)
     {
         long double const E = static_cast<long double>(res.sum()) / N;
@@ -251,7 +253,7 @@ void run_t(vf::Ctx& c)
             std::vector<T> const v = check_basic<T>(c, k, res, log.recs.data() + b, log.recs.data() + log.cuts[k], calls[k]);
             // adjustment data: per bin sums of v^2
             std::vector<std::vector<long double>> terms(dims * bins);
-            std::vector<long double> mags(dims * bins, 0.0L);
+            std::vector<long double> mags(dims * bins, 0.0L), slack(dims * bins, 0.0L);
             for (std::size_t i = b; i != log.cuts[k]; ++i)
             {
                 T const val = v[i - b];
@@ -262,13 +264,14 @@ void run_t(vf::Ctx& c)
                     std::size_t const slot = d * bins + log.recs[i].bins[d];
                     terms[slot].push_back(static_cast<long double>(val) * val);
                     mags[slot] += static_cast<long double>(val) * val;
+                    if (static_cast<long double>(val) * val < static_cast<long double>(std::numeric_limits<T>::min()) * std::ldexp(1.0L, std::numeric_limits<T>::digits)) { slack[slot] += std::numeric_limits<T>::min(); }
                 }
             }
             VF_CHECK(c, res.adjustment_data().size() == dims * bins, "C02:vegas-data-size", "adjustment data size " << res.adjustment_data().size());
             for (std::size_t slot = 0; slot != dims * bins; ++slot)
             {
                 long double const ref = kahan_sum_ld<T>(terms[slot]);
-                long double const tol = (terms[slot].size() + 4) * vf::eps<T>() * mags[slot];
+                long double const tol = (terms[slot].size() + 4) * vf::eps<T>() * mags[slot] + slack[slot];
                 long double const err = std::fabs(static_cast<long double>(res.adjustment_data()[slot]) - ref);
                 c.note_margin(tol, err);
                 VF_CHECK(c, err <= tol, "C02:vegas-adjustment-data", "iteration " << k << ": adjustment datum of dimension " << slot / bins << " bin "
@@ -313,7 +316,7 @@ void run_t(vf::Ctx& c)
             std::vector<T> const v = check_basic<T>(c, k, res, log.recs.data() + b, log.recs.data() + log.cuts[k], calls[k]);
             std::vector<T> const& alpha = res.channel_weights();
             std::vector<std::vector<long double>> terms(channels);
-            std::vector<long double> mags(channels, 0.0L);
+            std::vector<long double> mags(channels, 0.0L), cslack(channels, 0.0L);
             for (std::size_t i = b; i != log.cuts[k]; ++i)
             {
                 T const val = v[i - b];
@@ -339,17 +342,25 @@ void run_t(vf::Ctx& c)
                     long double const term = static_cast<long double>(dens[j]) * val * val * r.w;
                     terms[j].push_back(term);
                     mags[j] += std::fabs(term);
+                    // the library forms value*value, then (value*value)*weight, then multiplies with p_j: an intermediate in the
+                    // denormal range of T carries an absolute error of half a denorm_min, scaled by the remaining factors
+                    long double const lim = static_cast<long double>(std::numeric_limits<T>::min()) * std::ldexp(1.0L, std::numeric_limits<T>::digits);
+                    long double const dmin = std::numeric_limits<T>::denorm_min();
+                    long double const sqv = static_cast<long double>(val) * val, sqw = std::fabs(sqv * r.w);
+                    if (sqv < lim) { cslack[j] += dmin * std::fabs(static_cast<long double>(dens[j]) * r.w) * 2 + std::numeric_limits<T>::min(); }
+                    if (sqw < lim) { cslack[j] += dmin * std::fabs(static_cast<long double>(dens[j])) * 2 + std::numeric_limits<T>::min(); }
                 }
             }
             for (std::size_t j = 0; j != channels; ++j)
             {
                 if (alpha[j] == T(0)) { continue; } // the slot of a disabled channel is documented as ignored
                 long double const ref = kahan_sum_ld<T>(terms[j]);
-                long double const tol = (terms[j].size() + 6) * vf::eps<T>() * mags[j];
+                long double const tol = (terms[j].size() + 6) * vf::eps<T>() * mags[j] + cslack[j];
                 long double const err = std::fabs(static_cast<long double>(res.adjustment_data()[j]) - ref);
                 c.note_margin(tol, err);
                 VF_CHECK(c, err <= tol, "C02:multi-channel-adjustment-data", "iteration " << k << ": adjustment datum of channel " << j << " = "
-                    << vf::show(res.adjustment_data()[j]) << ", sum of p_j (f*w)^2 w from the log = " << vf::show<long double>(ref));
+                    << vf::show(res.adjustment_data()[j]) << ", sum of p_j (f*w)^2 w from the log = " << vf::show<long double>(ref) << " (tolerance " << vf::show<long double>(tol)
+                    << ", " << terms[j].size() << " terms)");
             }
             bool unequal = false;
             for (std::size_t j = 1; j < channels; ++j) { if (alpha[j] != alpha[0]) { unequal = true; } }
@@ -386,7 +397,8 @@ void formula_layer(vf::Ctx& c)
     default: N = std::size_t(3037000499ull) + t.range(0, 4); break;             // N(N-1) around 2^63
     }
     // magnitudes from 10^-2..10^2 up to a third of the exponent range of T (squares and N * squares stay finite)
-    long double const span = t.flag() ? 2.0L : static_cast<long double>(std::numeric_limits<T>::max_exponent10) / 3 - 8;
+    long double span = t.flag() ? 2.0L : static_cast<long double>(std::numeric_limits<T>::max_exponent10) / 3 - 8;
+    if (std::is_same<T, float>::value) { span = 2.0L; if (N > (std::size_t(1) << 40)) { N = (std::size_t(1) << 40) + N % 1000; } } // (N E)^2 and N^2 S^2 must fit into float
     long double const E = (t.flag() ? -1 : 1) * std::pow(10.0L, span * (2 * t.unit() - 1));
     long double const rel = std::pow(10.0L, -2 + 3 * t.unit());
     long double const S = std::fabs(E) * rel; // error of the mean
